@@ -81,9 +81,96 @@ def lattice(name):
 
 
 # side-band capture ----------------------------------------------------------------------------
+def describe_tensor(t):
+    """plain (picklable) description of a Vela tensor, for naming things only"""
+    if t is None:
+        return None
+    try:
+        addr = t.address
+    except Exception:
+        addr = None
+    names = [t.name]
+    st = getattr(t, "src_tensor", None)
+    guard = 0
+    while st is not None and guard < 5:
+        names.append(st.name)
+        st = getattr(st, "src_tensor", None)
+        guard += 1
+    return dict(eq=str(t.equivalence_id), name=t.name, names=names, address=None if addr is None else int(addr), fmt=t.format.name,
+                sub=t.sub_purpose.name, purpose=t.purpose.name, mem_type=t.mem_type.name, shape=[int(x) for x in (t.shape or [])],
+                storage_shape=[int(x) for x in (t.storage_shape or [])], esize=t.element_size(), storage_size=int(t.storage_size()))
+
+
+def _box(b):
+    if b is None:
+        return None
+    return dict(start=[int(x) for x in b.start_coord], end=[int(x) for x in b.end_coord])
+
+
+def describe_commands(sg, arch):
+    """the high-level commands of an NPU subgraph in the order they become NpuOperations (NOPs kept, flagged)"""
+    from ethosu.vela.high_level_command_stream import DMA, NOP, NpuStripe
+    from ethosu.vela.numeric_util import round_up
+    from ethosu.vela.operation import NpuBlockType
+    from ethosu.vela.tensor import TensorPurpose
+
+    out = []
+    for cmd in sg.high_level_command_stream:
+        if isinstance(cmd, NOP):
+            out.append(dict(kind="nop", src=describe_tensor(cmd.in_tensor), dst=describe_tensor(cmd.out_tensor)))
+        elif isinstance(cmd, DMA):
+            out.append(dict(kind="dma", src=describe_tensor(cmd.in_tensor), dst=describe_tensor(cmd.out_tensor), box=_box(cmd.box),
+                            weights=cmd.in_tensor.purpose == TensorPurpose.Weights, lut=cmd.out_tensor.purpose == TensorPurpose.LUT))
+        elif isinstance(cmd, NpuStripe):
+            if cmd.ps.npu_block_type == NpuBlockType.Default:
+                continue
+            ps = cmd.ps
+            d = dict(kind="stripe", op=ps.primary_op.type.name, name=ps.primary_op.name,
+                     ifm=describe_tensor(cmd.ifm_tensor), ifm_box=_box(cmd.ifm_box), ifm_view=[int(x) for x in ps.ifm_shapes[0].as_list()],
+                     ofm=describe_tensor(cmd.ofm_tensor), ofm_box=_box(cmd.ofm_box), ofm_view=[int(x) for x in ps.ofm_shapes[0].as_list()],
+                     ifm2=None, pad_top=int(cmd.pad_top), pad_bottom=int(cmd.pad_bottom), first=bool(cmd.is_first_h_stripe), last=bool(cmd.is_last_h_stripe))
+            if cmd.ifm2_tensor is not None and cmd.ifm2_box is not None:
+                d["ifm2"] = describe_tensor(cmd.ifm2_tensor)
+                d["ifm2_box"] = _box(cmd.ifm2_box)
+                d["ifm2_view"] = [int(x) for x in ps.ifm_shapes[1].as_list()] if len(ps.ifm_shapes) > 1 else None
+            k = ps.primary_op.kernel
+            d["kernel"] = dict(h=int(k.height), w=int(k.width), sx=int(k.stride.x), sy=int(k.stride.y), dx=int(k.dilation.x), dy=int(k.dilation.y))
+            pad = ps.primary_op.attrs.get("explicit_padding") if hasattr(ps.primary_op, "attrs") else None
+            d["explicit_padding"] = [int(x) for x in pad] if pad is not None else None
+            d["padding_type"] = str(ps.primary_op.attrs.get("padding")) if "padding" in ps.primary_op.attrs else None
+            d["upscale"] = str(ps.primary_op.ifm_resampling_mode)
+            d["read_offsets"] = [None if o is None else [int(x) for x in o.as_list()] for o in ps.primary_op.read_offsets]
+            d["write_offset"] = None if ps.primary_op.write_offset is None else [int(x) for x in ps.primary_op.write_offset.as_list()]
+            if cmd.weight_tensor is not None:
+                wt = cmd.weight_tensor
+                src = wt.src_tensor if wt.src_tensor is not None else wt
+                exp_w, exp_s = [], []
+                from ethosu.vela.weight_compressor import WeightKey
+
+                for core in range(arch.ncores):
+                    key = WeightKey(core, cmd.weight_box.start_coord[-1])
+                    if key in src.encoded_ranges:
+                        r = src.encoded_ranges[key]
+                        base = int(src.address + r.offset)
+                        exp_w.append((base + int(r.weight_offset), int(round_up(int(r.weight_bytes), 16))))
+                        if cmd.scale_tensor is not None:
+                            sr = cmd.scale_tensor.encoded_ranges[key]
+                            exp_s.append((int(cmd.scale_tensor.address + sr.offset), int(round_up(int(sr.scale_bytes), 16))))
+                        else:
+                            exp_s.append((base, int(round_up(int(r.scale_bytes), 16))))
+                d["weights"] = dict(flash=exp_w, scales=exp_s, buffered=wt.src_tensor is not None, depth=[int(cmd.weight_box.start_coord[-1]), int(cmd.weight_box.end_coord[-1])],
+                                    tensor=describe_tensor(wt))
+            lut = ps.primary_op.activation_lut
+            if lut is not None:
+                d["lut"] = dict(flash=int(lut.address) if lut.address is not None else None, size=int(lut.storage_size()), shram=describe_tensor(ps.lut_tensor))
+            out.append(d)
+    return out
+
+
 class SideBand:
     def __init__(self):
         self.streams = []  # per generate_command_stream call: dict(npu_ops=[...], accelerator, mem_limits)
+        self.subgraphs = []  # per NPU subgraph: plain description of its high-level commands (names, boxes, addresses)
         self.installed = False
 
     def install(self):
@@ -101,6 +188,20 @@ class SideBand:
         rcsg.generate_command_stream = wrapped
         if hasattr(h2n, "generate_command_stream"):
             h2n.generate_command_stream = wrapped
+        orig_sg = h2n.generate_register_command_stream_for_sg
+
+        def wrapped_sg(nng, sg, arch, verbose=False):
+            cmds = describe_commands(sg, arch)
+            res = orig_sg(nng, sg, arch, verbose)
+            sb.subgraphs.append(dict(words=list(sg.register_command_stream), cmds=cmds, name=sg.name,
+                                     inputs=[describe_tensor(t) for t in sg.input_tensors], outputs=[describe_tensor(t) for t in sg.output_tensors]))
+            return res
+
+        h2n.generate_register_command_stream_for_sg = wrapped_sg
+        from ethosu.vela import compiler_driver as cd
+
+        if hasattr(cd.high_level_command_to_npu_op, "generate_register_command_stream_for_sg"):
+            cd.high_level_command_to_npu_op.generate_register_command_stream_for_sg = wrapped_sg
         self.installed = True
 
 
